@@ -21,8 +21,8 @@ KINDS = ["timeout", "reset", "oserror", "eof"]
 STEPS = [
     {"op": "shell", "cmd": "a", "decode": True, "cls": "utf8", "seed": "c12a", "take": None},
     {"op": "stat", "path": "/s", "seed": "c12b", "split": "whole"},
-    {"op": "list", "path": "/d", "n": 3, "seed": "c12c", "split": "whole"},
-    {"op": "pull", "path": "/f", "size": 5000, "seed": "c12d", "rec": "random", "split": "whole", "dest": "bytesio", "cb": None},
+    {"op": "list", "path": "/d", "n": 3, "seed": "c12c", "split": "random"},
+    {"op": "pull", "path": "/f", "size": 5000, "seed": "c12d", "rec": "random", "split": "blocks", "dest": "bytesio", "cb": None},
     {"op": "push", "path": "/p", "size": 6000, "seed": "c12e", "src": "bytesio", "mode": 0o100644, "mtime": 11, "cb": None},
     {"op": "pull", "path": "/g", "size": 300, "seed": "c12f", "rec": "one", "split": "whole", "dest": "bytesio", "cb": "ok"},
     {"op": "streaming_shell", "cmd": "b", "decode": False, "cls": "ascii", "seed": "c12g", "take": 1},
@@ -218,6 +218,8 @@ def run_case(case):
                 except AttributeError:
                     pass
                 stats["recoveries_checked"] += 1
+            if sess.core.double_connects:
+                viol.append({"mechanism": "connection-leaked", "detail": "%s: transport.connect() was called %d time(s) while the previous connection had not been closed" % (where, sess.core.double_connects)})
             sigs.append("%s|%d|%d|%s|%s|%s" % (impl, case["variant"], case["maxdata"], ",".join(str(x) for x in kk), kind, persistent))
         finally:
             r.cleanup()
